@@ -32,6 +32,10 @@ META = {
         "subject; here a read is identified by its address and length",
     ],
     "outside_claim": ["sequences longer than 4 operations",
+                      "code that needs the length of a view as a real int "
+                      "(len()) on views of unbounded symbolic length: the "
+                      "engine gives up after 64 values (inconclusive); the "
+                      "unit 'ops=2 short views' (length 0..5) covers it",
                       "write payloads longer than 6 bytes",
                       "slices with a step other than None/1 (rejected with "
                       "ValueError by the code; checked once concretely)"],
